@@ -137,9 +137,13 @@ var (
 	intKinds   = []string{"int", "int8", "int16", "int32", "int64", "uint", "uint8", "uint16", "uint32", "uint64", "uintptr"}
 	basicNames = []string{"int", "int8", "int16", "int32", "int64", "uint", "uint8", "uint16", "uint32", "uint64", "uintptr",
 		"float32", "float64", "complex64", "complex128", "string", "bool"}
+	// named types a random value may have as its dynamic type (`error` is an interface type and `ErrStr`
+	// = errors.errorString only exists behind a pointer: neither is listed; `Result` has its own branch)
 	namedNames = []string{"MyInt", "MyInt8", "MyUint16", "MyFloat", "MyFloat32", "MyString", "MyBool", "MyAnys", "MyInts",
-		"MyStrs", "MyMap", "MyRec", "MyNC", "MyArr", "MyFunc", "MyPtr", "MyChan"}
-	keyTypes = []string{"string", "int", "@MyString", "any", "bool", "uint8"}
+		"MyStrs", "MyMap", "MyRec", "MyNC", "MyArr", "MyFunc", "MyPtr", "MyChan",
+		"MyInt16", "MyInt32", "MyInt64", "MyUint", "MyUint8", "MyUint32", "MyUint64", "MyUintptr", "MyComplex64", "MyComplex128",
+		"MyErr", "MyNCErr", "MyStrErr", "MyRes"}
+	keyTypes = []string{"string", "int", "@MyString", "any", "bool", "uint8", "float64", "@Result", "@error"}
 )
 
 func intRange(kind string) (lo int64, hi uint64) {
@@ -169,10 +173,10 @@ var (
 		math.Float64bits(1), math.Float64bits(-1), math.Float64bits(1.5), math.Float64bits(-2.75), math.Float64bits(0.1),
 		math.Float64bits(3.999999), math.Float64bits(-3.999999), math.Float64bits(1e10), math.Float64bits(-1e10),
 		math.Float64bits(9007199254740992), math.Float64bits(9007199254740993), // 2^53 (+1 rounds)
-		math.Float64bits(9223372036854774784),                                  // largest float64 below 2^63
-		math.Float64bits(9223372036854775808),                                  // 2^63: out of range
-		math.Float64bits(-9223372036854775808),                                 // -2^63: in range
-		math.Float64bits(-9223372036854777856),                                 // below -2^63
+		math.Float64bits(9223372036854774784),  // largest float64 below 2^63
+		math.Float64bits(9223372036854775808),  // 2^63: out of range
+		math.Float64bits(-9223372036854775808), // -2^63: in range
+		math.Float64bits(-9223372036854777856), // below -2^63
 		math.Float64bits(1e300), math.Float64bits(-1e300), math.Float64bits(math.MaxFloat64),
 		math.Float64bits(math.SmallestNonzeroFloat64), math.Float64bits(2147483648.5), math.Float64bits(4294967296),
 		0x7FF8000000000001, 0xFFF8000000000000, // NaNs (quiet)
@@ -189,7 +193,9 @@ var (
 )
 
 func f64Code(t string, bits uint64) string { return "(" + t + ")#" + strconv.FormatUint(bits, 10) }
-func f32Code(t string, bits uint32) string { return "(" + t + ")#" + strconv.FormatUint(uint64(bits), 10) }
+func f32Code(t string, bits uint32) string {
+	return "(" + t + ")#" + strconv.FormatUint(uint64(bits), 10)
+}
 
 // ---------------------------------------------------------------- the boundary table
 
@@ -270,6 +276,84 @@ func valueTable() []string {
 	add("(@MyAnys)~", "(@MyAnys)[]", "(@MyAnys)[(int)1]", `(@MyAnys)[(int)1,(string)"a",nil]`, "(@MyAnys)[nil]", "(@MyAnys)[(@MyAnys)[]]", "(@MyAnys)[(@MyAnys)~]",
 		"(@MyAnys)[(@MyAnys)[(int)1],(@MyAnys)[]]", "(@MyAnys)[(S(any))[]]", "(@MyAnys)[(M(string,any))&1]", "(@MyInts)~", "(@MyInts)[]", "(@MyInts)[(int)1]",
 		"(@MyInts)[(int)1,(int)2]", "(@MyStrs)~", `(@MyStrs)[(string)"a"]`, `(@MyStrs)[(string)"b",(string)"a"]`)
+	// named types of the remaining basic kinds (never a documented source type, whatever the value)
+	add("(@MyInt16)-32768", "(@MyInt32)2147483647", "(@MyInt64)-9223372036854775808", "(@MyInt64)1000000000", "(@MyUint)18446744073709551615",
+		"(@MyUint8)255", "(@MyUint32)0", "(@MyUint64)9223372036854775808", "(@MyUintptr)1", "(@MyComplex64)#1065353216#0",
+		"(@MyComplex128)#9221120237041090561#0", "(S(@MyInt64))[(@MyInt64)1]", "(S(@MyUint8))[(@MyUint8)104,(@MyUint8)105]", "(S(@MyUint8))~",
+		f64Code("@MyFloat", 0x7FF0000000000000), f64Code("@MyFloat", 0x8000000000000000), f32Code("@MyFloat32", 0xFF800000))
+	// maps whose keys are NaNs / Results / errors (the codec puts two NaN entries into a float-keyed map)
+	add("(M(float64,any))&1", "(M(float64,any))~", "(M(float64,string))&2", "(M(float32,int))&3", "(M(@Result,any))&4", "(M(@error,int))&5",
+		"(A1(M(float64,any)))[(M(float64,any))&1]", "(S(M(float64,any)))[(M(float64,any))&1]")
+	// more empty-vs-nil containers and pointer chains
+	add("(S(S(any)))~", "(S(S(any)))[]", "(S(M(string,any)))[(M(string,any))~]", "(S(F0))~", "(S(F0))[]", "(S(C(int)))~", "(S(P(P(int))))[(P(P(int)))~]",
+		"(P(P(P(int))))&1", "(P(P(int)))~", "(P(C(int)))&1", "(P(F0))&1", "(P(A1(S(int))))&1", "(C(C(int)))&1", "(C(F0))&2", "(C(M(string,any)))~",
+		"(A0(F0))[]", "(A0(M(string,any)))[]", "(A2(F0))[(F0)~,(F0)~]", "(A1(M(string,any)))[(M(string,any))~]", "(A1(@MyNC))[(@MyNC){(int)0,(S(int))~}]",
+		"(A2(S(any)))[(S(any))~,(S(any))[]]", "(R(A0(S(int)))){(A0(S(int)))[]}", "(R(S(any),M(string,any))){(S(any))~,(M(string,any))~}")
+	add(resultTable()...)
+	return l
+}
+
+// resultTable: flyt.Result used as an ordinary value — the payload of another Result, a store entry, an
+// element of a slice / array / struct / map type — and error values, `error`-typed slots.
+func resultTable() []string {
+	var l []string
+	add := func(c ...string) { l = append(l, c...) }
+	nan := f64Code("float64", 0x7FF8000000000001)
+	res := func(v string) string { return "(@Result){" + v + ",nil}" }
+	eres := func(e string) string { return "(@Result){nil," + e + "}" }
+	errNew, errNew2 := "(P(@ErrStr))&1", "(P(@ErrStr))&2"
+	errs := []string{errNew, errNew2, "(P(@ErrStr))~", "(@MyErr){(int)3}", "(@MyErr){(int)0}", "(P(@MyErr))&1", "(P(@MyErr))~",
+		"(@MyNCErr){(S(string))~}", `(@MyNCErr){(S(string))[(string)"a"]}`, "(P(@MyNCErr))&1", `(@MyStrErr)"boom"`, `(@MyStrErr)""`}
+	// a non-error Result holding each of the kinds the accessors know, and the ones they do not
+	payloads := []string{"nil", "(int)42", "(int)0", "(int8)-128", "(uint64)18446744073709551615", "(uintptr)7", "(@MyInt)5",
+		f64Code("float64", math.Float64bits(2.5)), nan, f64Code("float64", 0x7FF0000000000000), f32Code("float32", math.Float32bits(1.5)),
+		`(string)"hello"`, `(string)""`, `(@MyString)"x"`, "(bool)t", "(bool)f", "(complex128)#0#0",
+		"(S(any))~", "(S(any))[]", `(S(any))[(int)1,(string)"a",nil]`, "(S(int))[(int)1,(int)2,(int)3]", "(S(int))~", `(S(string))[(string)"a"]`,
+		"(S(float64))[" + nan + "]", "(S(M(string,any)))[(M(string,any))&1]", "(@MyAnys)[(int)1]", "(S(uint8))[(uint8)104]",
+		"(M(string,any))&1", "(M(string,any))~", "(@MyMap)&2", "(M(string,int))&3", "(M(float64,any))&1",
+		"(P(int))&1", "(P(int))~", "(F0)&", "(F0)~", "(C(int))&1", "(A2(int))[(int)1,(int)2]", "(A1(S(int)))[(S(int))~]",
+		`(R(int,string)){(int)1,(string)"a"}`, "(R(int,S(int))){(int)1,(S(int))~}", "(R(float64)){" + nan + "}", "(@MyNC){(int)0,(S(int))~}", "(R()){}"}
+	for _, v := range payloads {
+		add(res(v))
+	}
+	// error Results; NewErrorResult(nil) is the zero Result, the same value as NewResult(nil)
+	for _, e := range errs {
+		add(eres(e))
+	}
+	// error values as payloads of a non-error Result, and as values in their own right
+	for _, e := range errs {
+		add(res(e), e)
+	}
+	// Results inside Results
+	r42 := res("(int)42")
+	add(res(r42), res(res(r42)), res(res(res(res("nil")))), res(res("nil")), res(res(`(string)"x"`)), res(res("(S(int))[(int)1,(int)2,(int)3]")),
+		res(res("(M(string,any))&1")), res(res("(bool)t")), res(res(nan)), res(res("(F0)&")), res(res("(S(int))~")),
+		res(eres(errNew)), res(res(eres(errNew))), res(eres("(@MyNCErr){(S(string))~}")), res(eres("(P(@MyErr))~")),
+		res("(S(any))["+r42+"]"), res("(S(@Result))["+r42+"]"), res("(A1(@Result))["+r42+"]"), res("(R(@Result)){"+r42+"}"), res("(P(@Result))&1"))
+	// slices / arrays / structs / maps / pointers / channels of Results
+	rs, re, rn, rnc := res(`(string)"two"`), eres(errNew), res("nil"), res("(S(int))~")
+	add("(S(@Result))~", "(S(@Result))[]", "(S(@Result))["+r42+"]", "(S(@Result))["+r42+","+rs+"]", "(S(@Result))["+rn+"]", "(S(@Result))["+re+"]",
+		"(S(@Result))["+rnc+"]", "(S(@Result))["+res(nan)+"]", "(S(@Result))["+r42+","+re+","+rn+","+res(r42)+"]", "(S(@Result))["+res(r42)+"]",
+		"(S(@Result))["+res("(S(@Result))["+r42+"]")+"]", "(S(@Result))["+eres("(@MyNCErr){(S(string))~}")+"]",
+		"(S(any))["+r42+"]", "(S(any))["+r42+","+rs+",nil]", "(S(any))["+re+"]", "(S(any))["+rnc+"]", "(S(any))[(S(@Result))["+r42+"]]",
+		"(@MyAnys)["+r42+"]", "(S(S(@Result)))[(S(@Result))["+r42+"]]", "(S(S(@Result)))[(S(@Result))~]", "(S(P(@Result)))[(P(@Result))&1,(P(@Result))~]",
+		"(A0(@Result))[]", "(A1(@Result))["+r42+"]", "(A1(@Result))["+rnc+"]", "(A1(@Result))["+res(nan)+"]", "(A2(@Result))["+r42+","+rnc+"]",
+		"(A2(@Result))["+rnc+","+res(nan)+"]", "(A2(@Result))["+res(nan)+","+rnc+"]", "(A1(@Result))["+re+"]", "(A2(any))["+r42+","+rn+"]",
+		"(R(@Result)){"+r42+"}", "(R(@Result)){"+rn+"}", "(R(@Result)){"+rnc+"}", "(R(@Result)){"+re+"}", "(R(@Result,int)){"+res(nan)+",(int)1}",
+		"(R(int,@Result)){(int)1,"+rnc+"}", "(R(any)){"+r42+"}", "(R(any)){"+rnc+"}", "(R(@Result,S(int))){"+r42+",(S(int))~}", "(R(S(@Result))){(S(@Result))["+r42+"]}",
+		"(M(string,@Result))&1", "(M(string,@Result))~", "(M(@Result,@Result))&2", "(S(M(string,@Result)))[(M(string,@Result))&1]",
+		"(P(@Result))&1", "(P(@Result))~", "(P(P(@Result)))&1", "(P(S(@Result)))&1", "(C(@Result))&1", "(C(@Result))~")
+	// `type MyRes flyt.Result`: the same struct under another name — not a flyt.Result for As[T]
+	add("(@MyRes){nil,nil}", "(@MyRes){(int)42,nil}", "(@MyRes){nil,"+errNew+"}", "(@MyRes){"+r42+",nil}", "(@MyRes){(@MyRes){(int)42,nil},nil}",
+		"(@MyRes){(S(int))~,nil}", res("(@MyRes){(int)42,nil}"), "(S(@MyRes))[(@MyRes){(int)42,nil}]", "(S(@MyRes))~", "(A1(@MyRes))[(@MyRes){(S(int))~,nil}]",
+		"(R(@MyRes,@Result)){(@MyRes){(int)1,nil},"+r42+"}", "(P(@MyRes))&1", "(M(string,@MyRes))&1")
+	// `error`-typed slots
+	add("(S(@error))~", "(S(@error))[]", "(S(@error))[nil]", "(S(@error))["+errNew+"]", "(S(@error))["+errNew+",nil,"+errNew2+","+errNew+"]",
+		"(S(@error))[(@MyNCErr){(S(string))~}]", "(S(@error))[(P(@MyErr))~]", "(S(@error))[(@MyErr){(int)3},(@MyStrErr)\"boom\"]",
+		"(A1(@error))[nil]", "(A1(@error))["+errNew+"]", "(A1(@error))[(@MyNCErr){(S(string))~}]", "(A2(@error))[(@MyErr){(int)3},(@MyNCErr){(S(string))~}]",
+		"(R(@error)){nil}", "(R(@error)){"+errNew+"}", "(R(@error)){(@MyNCErr){(S(string))~}}", "(R(any,@error)){(int)42,nil}", "(R(any,@error)){nil,"+errNew+"}",
+		"(R(any,@error)){(S(int))~,(@MyNCErr){(S(string))~}}", "(M(string,@error))&1", "(M(string,@error))~", "(P(@error))&1", "(P(@error))~", "(C(@error))&1",
+		"(S(@MyErr))[(@MyErr){(int)1},(@MyErr){(int)1}]", "(S(@MyNCErr))[(@MyNCErr){(S(string))~}]", "(A1(@MyNCErr))[(@MyNCErr){(S(string))~}]")
 	return l
 }
 
@@ -286,6 +370,12 @@ var defaultSets = []defaultsSet{
 	{"another default", "-9223372036854775808", strconv.FormatUint(0x8000000000000000, 10), true, `(S(any))[nil,(int)1]`, "(M(string,any))~"},
 }
 
+// errRecvTable: the receiver of the Result accessors is an *error* Result, flyt.NewErrorResult(err); what
+// it holds as its value is nil, so the scenario's value is nil
+func errRecvTable() []string {
+	return []string{"(P(@ErrStr))&1", "(P(@ErrStr))~", "(@MyErr){(int)3}", "(P(@MyErr))~", "(@MyNCErr){(S(string))~}", `(@MyStrErr)"boom"`, `(@MyStrErr)"42"`}
+}
+
 func (d defaultsSet) scenario(code string) ValueScenario {
 	return ValueScenario{V: code, Ds: d.ds, Di: d.di, Df: d.df, Db: d.db, Dsl: d.dsl, Dm: d.dm}
 }
@@ -294,6 +384,15 @@ func (d defaultsSet) scenario(code string) ValueScenario {
 
 func randGType(r *rng, depth int, slot bool) *gtype {
 	// slot: the type of an element / field (may be `any`); top-level dynamic types never are
+	// a flyt.Result, an `error`-typed slot, an error type
+	switch q := r.intn(100); {
+	case q < 6:
+		return &gtype{k: "named", name: "Result"}
+	case slot && q < 8:
+		return &gtype{k: "named", name: "error"}
+	case q >= 98:
+		return parseGType(errTypes[r.intn(len(errTypes))])
+	}
 	p := r.intn(100)
 	if depth <= 0 {
 		switch {
@@ -401,6 +500,9 @@ func randF32Bits(r *rng) uint32 {
 	return b
 }
 
+// dynamic types of error values
+var errTypes = []string{"P(@ErrStr)", "@MyErr", "P(@MyErr)", "@MyNCErr", "P(@MyNCErr)", "@MyStrErr"}
+
 var randStrings = []string{"", "a", "b", "hello", "x y", "0", "true", "ß✓"}
 
 func randRef(r *rng) string {
@@ -424,6 +526,20 @@ func randValueOf(r *rng, t *gtype, depth int) string {
 		return randValueOf(r, dt, d)
 	}
 	pre := "(" + t.code() + ")"
+	if t.k == "named" && t.name == "error" {
+		// a slot of type error: nil or an error value
+		if r.chance(20) {
+			return "nil"
+		}
+		return randValueOf(r, parseGType(errTypes[r.intn(len(errTypes))]), depth-1)
+	}
+	if t.k == "named" && (t.name == "Result" || t.name == "MyRes") {
+		// only what the public constructors can build: NewResult(v) and NewErrorResult(err)
+		if r.chance(25) {
+			return pre + "{nil," + randValueOf(r, &gtype{k: "named", name: "error"}, depth) + "}"
+		}
+		return pre + "{" + randValueOf(r, &gtype{k: "any"}, depth) + ",nil}"
+	}
 	u := t.under()
 	switch u.k {
 	case "basic":
@@ -490,6 +606,13 @@ func genC15(r *rng, thorough bool, emit func(ValueScenario)) {
 	for _, code := range table {
 		for i := 0; i < nDef; i++ {
 			emit(defaultSets[i].scenario(code))
+		}
+	}
+	for _, e := range errRecvTable() {
+		for i := 0; i < nDef; i++ {
+			sc := defaultSets[i].scenario("nil")
+			sc.RecvErr = e
+			emit(sc)
 		}
 	}
 	for i := 0; i < nRand; i++ {
